@@ -89,6 +89,76 @@ def code_at(syms, off):
     return best
 
 
+KIND_OF_ENTRY = [("_sha1_", "sha1"), ("_sha256_", "sha256"), ("_sha512_", "sha512"), ("_md5_", "md5"), ("_sm3_", "sm3"), ("_mh_", "mh"),
+                 ("_aes_cbc_", "cbc"), ("_aes_keyexp_", "cbc"), ("_aes_gcm_", "gcm"), ("_XTS_", "xts"), ("_rolling_", "roll")]
+KIND_OF_OBJ = [("mh_sha", "mh"), ("murmur", "mh"), ("sha1", "sha1"), ("sha256", "sha256"), ("sha512", "sha512"), ("md5", "md5"), ("sm3", "sm3"),
+               ("gcm", "gcm,cbc"), ("cbc", "cbc"), ("keyexp", "cbc,gcm,xts"), ("xts", "xts"), ("XTS", "xts"), ("rolling", "roll")]
+ALL_PRESETS = ["host", "base", "sse", "avx", "avx2", "avx512", "avx512g2", "sse_ni", "avx512_ni"]
+PRESET_OF_SUFFIX = [("_avx512_ni", ["avx512_ni", "host"]), ("_sse_ni", ["sse_ni"]), ("_avx512", ["avx512", "avx512g2"]), ("_vaes", ["avx512g2", "host"]),
+                    ("_avx2", ["avx2"]), ("_avx_gen4", ["avx2", "avx512"]), ("_avx_gen2", ["avx"]), ("_avx", ["avx"]), ("_sse", ["sse", "sse_ni"]),
+                    ("_base", ["base"]), ("_04", ["avx2", "avx512"]), ("_02", ["avx"]), ("_01", ["sse"]), ("_00", ["sse"])]
+
+
+def sweep_targets(info, objs, entries):
+    """which operation kinds / family presets reach code of the given objects: backward closure over
+    "object A has a relocation to a symbol defined in object B", then the dispatchers
+    (<entry>_dispatch_init in the multibinary objects) that select a family symbol defined inside
+    the closure give (entry, family symbol) -> (operation kind, CPUID preset)"""
+    g = info.get("graph", {})
+    defined_in = {}
+    for obj, d in g.items():
+        for sym in d["defs"]:
+            defined_in.setdefault(sym, obj)
+    callers = {}
+    for obj, d in g.items():
+        for lab, sym in d["refs"]:
+            o2 = defined_in.get(sym)
+            if o2 and o2 != obj and "multibinary" not in obj:
+                callers.setdefault(o2, set()).add(obj)
+    closure, todo = set(objs), list(objs)
+    while todo:
+        o = todo.pop()
+        for c in callers.get(o, ()):
+            if c not in closure:
+                closure.add(c)
+                todo.append(c)
+    kinds, presets, via = set(), set(), []
+    for obj, d in g.items():
+        if "multibinary" not in obj:
+            continue
+        for lab, sym in d["refs"]:
+            if defined_in.get(sym) in closure:
+                cands = [e for e in entries if e.lstrip("_") in lab]
+                if not cands:
+                    continue
+                e = max(cands, key=len)
+                k = [kk for pre, kk in KIND_OF_ENTRY if e.startswith(pre)]
+                if k:
+                    kinds.add(k[0])
+                ps = [p for suf, p in PRESET_OF_SUFFIX if sym.endswith(suf)]
+                presets.update(ps[0] if ps else ALL_PRESETS)
+                via.append((e, sym))
+    for o in objs:      # code that is not behind a dispatcher (C wrappers, precomputation): by object name
+        for key, kk in KIND_OF_OBJ:
+            if key in o:
+                kinds.update(kk.split(","))
+                break
+    if not via:
+        presets.update(ALL_PRESETS)
+    if not kinds:
+        kinds.update(k for _, k in KIND_OF_ENTRY)
+    return sorted(kinds), [p for p in ALL_PRESETS if p in presets], sorted(set(via))[:40], sorted(closure)
+
+
+def run_sweep(exe, entries, kinds, presets, seed, timeout=600):
+    try:
+        p = subprocess.run([exe, "1", "1", "1", str(seed), "sweep", ",".join(kinds), ",".join(presets)], input="\n".join(entries) + "\n",
+                           stdout=subprocess.PIPE, stderr=subprocess.PIPE, text=True, timeout=timeout)
+        return p.returncode, p.stdout, p.stderr
+    except subprocess.TimeoutExpired as e:
+        return 124, "", "timeout"
+
+
 def run_rt(exe, entries, nth, nops, rounds, seed, timeout=900):
     try:
         p = subprocess.run([exe, str(nth), str(nops), str(rounds), str(seed)], input="\n".join(entries) + "\n",
@@ -103,6 +173,7 @@ def evaluate_rt(rep, so, rc, out, err, params, info):
     syms = so_symbols(so)
     res = []
     f = {}
+    desc = ([l[5:] for l in out.split("\n") if l.startswith("DESC ")] or [""])[0]
     for l in out.split("\n"):
         t = l.split()
         if not t:
@@ -123,9 +194,10 @@ def evaluate_rt(rep, so, rc, out, err, params, info):
                 tgt = sym_at(syms, off)
                 pc = code_at(syms, int(d["pc"], 16))
                 name = tgt[2] if tgt else "?"
-                res.append(("write into library static `%s` (+%d) by `%s` while %s threads x %s operations ran on private objects"
-                            % (name, off - tgt[0] if tgt else 0, pc[2] if pc else "?", params["nth"], params["nops"]),
-                            dict(params, kind="runtime", fault=l, static=name, writer=pc[2] if pc else "?",
+                res.append(("write into library static `%s` (+%d) by `%s` during [%s] (%s)"
+                            % (name, off - tgt[0] if tgt else 0, pc[2] if pc else "?", desc,
+                               params.get("how", "%s threads x %s operations on private objects, library data write-protected" % (params.get("nth"), params.get("nops")))),
+                            dict(params, kind=params.get("kind", "runtime"), fault=l, operation=desc, static=name, writer=pc[2] if pc else "?",
                                  families_completed_before_the_fault=[x.split("family=")[1].split()[0] for x in out.split("\n") if x.startswith("A family=")],
                                  family_order=["host", "base", "sse", "avx", "avx2", "avx512", "avx512g2", "sse_ni", "avx512_ni"]),
                             {"kind": "write_to_static", "static": re.sub(r"\.\d+$", "", name)}, False))
@@ -141,7 +213,9 @@ def evaluate_rt(rep, so, rc, out, err, params, info):
     if nosym:
         res.append(("dispatch symbols not found in the shared object: %s" % nosym[:4], dict(params, kind="harness"), {"kind": "harness"}, True))
     if not any(r[2]["kind"] in ("write_to_static", "fault") for r in res):
-        if "A" not in f:
+        if params.get("kind") == "sweep":
+            pass
+        elif "A" not in f:
             res.append(("run-time half did not complete phase A (rc=%d): %s %s" % (rc, out[-300:], err[-300:]), dict(params, kind="runtime"), {"kind": "harness"}, True))
         else:
             if int(f["A"]["result_mismatches"]):
@@ -185,6 +259,13 @@ def run(tier, replay=None):
     else:
         params = {"quick": {"nth": 16, "nops": 60, "rounds": 60, "seed": seed},
                   "thorough": {"nth": 32, "nops": 600, "rounds": 1500, "seed": seed}}[tier]
+    if replay and r.get("kind") == "sweep":
+        src, sout, serr = run_sweep(exe, entries, r["opkinds"], r["presets"], r.get("seed", seed))
+        sfound, _ = evaluate_rt(rep, so, src, sout, serr, {k: r[k] for k in ("kind", "opkinds", "presets", "seed", "how") if k in r}, info)
+        rep.case(("replay", json.dumps(r.get("operation", ""))), True)
+        for what, rp, sig, no_input in [x for x in sfound if x[2]["kind"] in ("write_to_static", "fault")][:2]:
+            rep.violation(what, rp, sig)
+        return rep.finish()
     rc, out, err = run_rt(exe, entries, params["nth"], params["nops"], params["rounds"], params["seed"])
     found, f = evaluate_rt(rep, so, rc, out, err, params, info)
     nops_kinds = 10
@@ -213,9 +294,35 @@ def run(tier, replay=None):
         for w in info.get("bss", []):
             if "_slver" not in w["name"]:
                 bad.append({"rule": "bss_allowed", "obj": w["obj"], "symbol": w["name"], "size": w["size"]})
+        pinned = {"gcm_vectors", "xts_vectors", "cbc_vectors", "aes_gcm_256_tag", "aes_gcm_256_iv", "aes_gcm_128_tag", "aes_gcm_128_iv",
+                  "aes_xts_256_ciphertext", "aes_xts_256_plaintext", "aes_xts_256_tweak", "aes_xts_256_key2", "aes_xts_256_key1",
+                  "aes_xts_128_ciphertext", "aes_xts_128_plaintext", "aes_xts_128_tweak", "aes_xts_128_key2", "aes_xts_128_key1",
+                  "aes_cbc_256_iv", "aes_cbc_192_iv", "aes_cbc_128_iv", "rolling_hash2_table1", "msg_sha512", "expResultDigest_sha512",
+                  "isal_crypto_version_str"}
+        for w in info.get("c_statics_nonconst", []):
+            if "_slver" not in w["name"] and w["name"] not in pinned and not w.get("bss"):
+                bad.append({"rule": "c_statics_allowed", "obj": w["obj"], "symbol": w["name"], "size": w["size"]})
+        if bad and not replay:
+            # targeted search: drive exactly the operation kinds / families that reach the offending code,
+            # over a grid of alignments x length classes x variants, library data write-protected
+            objs = sorted({b["obj"] for b in bad})
+            kinds, presets, via, closure = sweep_targets(info, objs, entries)
+            rep.notes["targeted_search"] = {"offending_objects": objs, "reached_from": via, "operation_kinds": kinds, "family_presets": presets,
+                                            "objects_in_backward_closure": len(closure)}
+            src, sout, serr = run_sweep(exe, entries, kinds, presets, params["seed"])
+            sp = {"kind": "sweep", "opkinds": kinds, "presets": presets, "seed": params["seed"],
+                  "how": "targeted sweep: alignments 0..63 x 28 length classes x all variants, single thread, library data write-protected"}
+            sfound, _ = evaluate_rt(rep, so, src, sout, serr, sp, info)
+            sreal = [x for x in sfound if x[2]["kind"] in ("write_to_static", "fault")]
+            real = real + sreal
+            rep.notes["targeted_search"]["completed_without_fault"] = [l for l in sout.split("\n") if l.startswith("S ")]
+            for k_ in range(len([l for l in sout.split("\n") if l.startswith("S ")]) + 1):
+                rep.case(("sweep", k_, tuple(kinds), tuple(presets)), True)
+            for what, rp, sig, no_input in sreal[:2]:
+                rep.violation(what, dict(rp, offending=bad[:6]), sig)
         if not real:
-            rep.violation("Coq obligation no longer checks (%s); offending inventory entries: %s; the write-protected run of %d threads x %d operations and %d race rounds finds no failure"
-                          % ((broken or {}).get("error", "")[:200], bad[:4], params["nth"], params["nops"], params["rounds"]),
+            rep.violation("Coq obligation no longer checks (%s); offending inventory entries: %s; the write-protected run of %d threads x %d operations and %d race rounds and the targeted sweep (%s) find no failure"
+                          % ((broken or {}).get("error", "")[:200], bad[:4], params["nth"], params["nops"], params["rounds"], rep.notes.get("targeted_search", {}).get("operation_kinds")),
                           {"theorem_or_file": broken, "theorem": "C18_written_statics_allowed_partial", "offending": bad[:20], "translate_error": info.get("error")}, no_input=True)
         else:
             rep.notes["static_half_offending"] = bad[:20]
@@ -227,7 +334,9 @@ def run(tier, replay=None):
                        "GCM one-shot/streaming/nt/streaming-nt 128/256 round trip, XTS 128/256 plain and expanded-key round trips, rolling hash) + race rounds of phase B "
                        "(16 threads x 10 operation kinds, all bindings re-armed)" % info.get("n_objects"))
     rep.notes["input_distribution"] = {"phase_A": params, "operation_kinds": ["sha1", "sha256", "sha512", "md5", "sm3", "mh*3", "keyexp+cbc", "gcm(4 modes x 2 key sizes)", "xts(2 key sizes x plain/expanded)", "rolling"],
-                                       "lengths": "hash 0..699 per context, mh 0..2999, cbc 16..640, gcm 0..899, xts 16..915, rolling windows 1..48"}
+                                       "data_pointer_alignment": "every operation: 0 (25%), 1, 2, 3 mod 64 (12.5% each), random odd, random 0..63, random multiple of 4 (12.5% each); outputs at other derived offsets; nt GCM variants 64-aligned as documented",
+                                       "in_place": "CBC, GCM, XTS: in-place and out-of-place variants",
+                                       "lengths": "hash 0..699 (25%: ..2999) first context, mh 0..2999 (25%: ..5999, whole-block and mid-block split points), cbc 16..640 (..6400), gcm 0..899 (..3999), xts 16..915 (..2415), rolling 64..3063 (..7063), windows 1..48"}
     rep.level = "proof"
     rep.assumptions = ["PARTIAL: stores into library statics through computed pointers (326 instructions take the address of writable data, nearly all constant tables) are excluded only on the paths executed under write protection",
                        "the generic commutation theorem's hypotheses (an operation writes only its own objects and reads only them and never-written data) are observed for the code (results equal the sequential run), not proved; C08 bounds the write footprints",
